@@ -34,6 +34,8 @@ func scenarios(tier string) []clustermc.Scenario {
 		// every write on its own key: a replica that applies another command than the one that was
 		// acknowledged (a payload changed between proposal and replication) ends with other data
 		{Name: "distinct-keys", Progs: [][]clustermc.Op{{gs(1, "a"), gs(2, "b"), gs(3, "c")}, {gs(4, "d")}}, Keys: [][]string{{"get", kk(1)}, {"get", kk(2)}, {"get", kk(3)}, {"get", kk(4)}}, Max: faults, Horizon: 90},
+		// a persistent engine: a restarted replica meets the data it had applied before it stopped
+		{Name: "incr-pebble", Progs: [][]clustermc.Op{{incr(0), incr(0)}, {incr(0)}}, Keys: keys, Max: faults, Horizon: 90, Engine: "pebble"},
 		{Name: "two-clients-incr", Progs: [][]clustermc.Op{{incr(0), incr(0)}, {incr(0)}}, Keys: keys, Max: faults, Horizon: 90},
 		{Name: "getset-setnx", Progs: [][]clustermc.Op{{getset("a", 0), setnx("x", 0)}, {getset("b", 0)}}, Keys: keys, Max: faults, Horizon: 90},
 		{Name: "call-at-follower", Progs: [][]clustermc.Op{{incr(2), incr(1)}, {incr(3)}}, Keys: keys, Max: faults, Horizon: 90},
